@@ -187,6 +187,17 @@ def check_result(acc, idx, c, kind, ds, spec, before, sub, origin, size):
     for gname in sub.keys():
         if gname not in spec:
             problems.append(("unexpected-group", {"group": gname}))
+    if not problems:
+        # composition: the result is a new dataset, so working on it in place (recentring, rescaling) must not reach the input
+        for gname in list(sub.keys()):
+            for k in list(sub[gname].keys()):
+                v = sub[gname][k]
+                try:
+                    v *= 2.0
+                except Exception:
+                    pass
+        if snapshot_ds(ds) != before:
+            problems.append(("input-changed-by-in-place-work-on-the-result", {"rows_inside": {g: int(expected_keep(kind, pts, origin, size).sum()) for g, (pts, n) in spec.items() if pts is not None}}))
     return problems
 
 
